@@ -1181,8 +1181,8 @@ impl Family for TlsWalks {
 
 /// replies of every size in windows around 16 KiB, 32 KiB and 64 KiB (TLS record and buffer sizes)
 /// inside a TLS session: one row with one cell of n bytes, then a PING
-struct TlsReplySizes {
-    sizes: Vec<usize>,
+pub struct TlsReplySizes {
+    pub sizes: Vec<usize>,
 }
 impl TlsReplySizes {
     fn new(quick: bool) -> Self {
